@@ -72,7 +72,13 @@ Definition build_case (comps : list (str * comp)) (obs : list (str * list (N * p
   let r := build_parameters comps in
   table_eqb (fst r) obs && (length (fst (snd r)) =? n_ref_errs)%nat && (length (snd (snd r)) =? length par_errs)%nat.
 (* concrete instance of the abstract collaborators: schema ids in `bad` fail to parse; `allow` lists (schema id, locations) *)
-Definition c_build (bad : list N) (st : N) (n : str) (r : bool) (s : N) : option ((N * bool) * N) := if memN s bad then None else Some ((s, r), N.succ st).
+(* state = (name, schema id) of the class-minting schemas (inline enum 7 / object 8) built so far in this endpoint: a second class of the same
+   name is a duplicate-class error, except that two enums with equal values share one class (by design of EnumProperty.build) *)
+Definition c_build (bad mint : list N) (st : list (str * N)) (n : str) (r : bool) (s : N) : option ((N * bool) * list (str * N)) :=
+  if memN s bad then None
+  else if memN s mint then
+    (if existsb (fun k => str_eqb n (fst k) && negb ((s =? 7) && (snd k =? 7))) st then None else Some ((s, r), (n, s) :: st))
+  else Some ((s, r), st).
 Definition c_validate (allow : list (N * list loc)) (p : N * bool) (l : loc) : bool :=
   match assocN (fst p) allow with Some ls => existsb (loc_eqb l) ls | None => false end && match l with LPath => snd p | _ => true end.
 Definition obs_param := (str * (loc * (bool * N)))%type.
@@ -86,7 +92,7 @@ Definition perr_eqb (a b : perr) : bool :=
   | EUnmodelled, _ => true | _, _ => false end.
 Definition ep_case (comps : list (str * comp)) (bad : list N) (allow : list (N * list loc)) (ops pis : option (list pitem))
     (obs : (list obs_param * (list obs_param * (list obs_param * list obs_param))) + perr) (nbuilt : N) : bool :=
-  let r := endpoint_parameters N (N * bool) (c_build bad) (c_validate allow) (fun e => inl e) (fun s => Some s) (fst (build_parameters comps)) ops pis 0 in
+  let r := endpoint_parameters (list (str * N)) (N * bool) (c_build bad [7; 8]) (c_validate allow) (fun e => inl e) (fun s => Some s) (fst (build_parameters comps)) ops pis [] in
   match fst r, obs with
   | inl e, inl (q, (p, (h, c))) => list_eqb pp_eqb (by_loc LQuery e) q && list_eqb pp_eqb (by_loc LPath e) p && list_eqb pp_eqb (by_loc LHeader e) h && list_eqb pp_eqb (by_loc LCookie e) c
   | inr a, inr b => perr_eqb a b
@@ -96,8 +102,8 @@ Definition ep_case (comps : list (str * comp)) (bad : list N) (allow : list (N *
 Definition ep_inline_case (comps : list (str * comp)) (bad : list N) (allow : list (N * list loc)) (ops pis : list pitem) : bool :=
   match inline_items comps ops, inline_items comps pis with
   | Some ops', Some pis' =>
-      let f := endpoint_parameters N (N * bool) (c_build bad) (c_validate allow) (fun e => inl e) (fun s => Some s) (fst (build_parameters comps)) in
-      match fst (f (Some ops) (Some pis) 0), fst (f (Some ops') (Some pis') 0) with
+      let f := endpoint_parameters (list (str * N)) (N * bool) (c_build bad [7; 8]) (c_validate allow) (fun e => inl e) (fun s => Some s) (fst (build_parameters comps)) in
+      match fst (f (Some ops) (Some pis) []), fst (f (Some ops') (Some pis') []) with
       | inl a, inl b => list_eqb (fun x y => pp_eqb x (pp_name y, (pp_loc y, (pp_required y, pp_schema y)))) a b
       | inr a, inr b => perr_eqb a b
       | _, _ => false
@@ -139,7 +145,7 @@ def bad_ref_forms(section, name):
 def stage_b_refstrings(run, tier):
     from openapi_python_client.parser.properties.schemas import parse_reference_path as prp, get_reference_simple_name as gsn
     rng = run.rng
-    n = 1500 if tier == "quick" else 12000
+    n = 1500 if tier == "quick" else 8000
     cases = [t for _, t in bad_ref_forms("schemas", "Pet")] + [t for _, t in bad_ref_forms("requestBodies", "a b")]
     cases += ["#/components/schemas/Pet", "#/components/schemas/a\tb", " \n#/x", "x:#/a", "1x:#/a", "a+b.c-d:#/x", "//h;p?q#/a", ";#/a", "/;#/a", "a;b#/c", "//℀#/a", "//[::1]#/a"]
     while len(cases) < n:
@@ -635,7 +641,7 @@ def rewrite(doc, chosen, rng, chain_max=6, share=True):
         return rng.choice(COMP_KEYS) % counter[0]
 
     def move(section, obj):
-        key = (section, json.dumps(obj, sort_keys=True))
+        key = (section, json.dumps(obj))       # insertion order is significant (order of content types / properties): share only identical texts
         if share and key in moved and rng.random() < 0.7:
             return moved[key]
         name = fresh()
@@ -746,7 +752,7 @@ def work_meta(args):
 
 def stage_c_meta(run, tier, replay_docs=None):
     rng = run.rng
-    ndocs = 70 if tier == "quick" else 2000
+    ndocs = 70 if tier == "quick" else 1200
     jobs = [(rng.randrange(1 << 30), 3 if tier == "quick" else 4, i % 8 == 7) for i in range(ndocs)]
     with cf.ProcessPoolExecutor(max_workers=14) as ex:
         results = list(ex.map(work_meta, jobs, chunksize=2))
